@@ -324,6 +324,7 @@ class Lattice:
         # not necessary for loading, but still useful
         h5gr.attrs['dim'] = self.dim
         h5gr.attrs['N_sites'] = self.N_sites
+        h5gr.attrs['mps_unit_cell_width'] = self.mps_unit_cell_width
         if hasattr(self, 'segment_first_last'):
             first, last = self.segment_first_last
             h5gr.attrs['segment_first'] = first
@@ -359,6 +360,8 @@ class Lattice:
         obj.unit_cell = hdf5_loader.load(subpath + 'unit_cell')
         Ls = hdf5_loader.load(subpath + 'lengths')
         obj._set_Ls(Ls)
+        if 'mps_unit_cell_width' in h5gr.attrs:  # differs from Ls[0] e.g. after `with_grouped_sites`
+            obj.mps_unit_cell_width = int(h5gr.attrs['mps_unit_cell_width'])
         obj.unit_cell_positions = hdf5_loader.load(subpath + 'unit_cell_positions')
         obj.basis = hdf5_loader.load(subpath + 'basis')
         obj.boundary_conditions = hdf5_loader.load(subpath + 'boundary_conditions')
